@@ -498,3 +498,66 @@ def hint_arms(ctx, crate, crs, tag, rule="availability"):
             ok = kinds == {"None:empty", "Some:listed", "All:all"}
             detail = "arms found: %s" % sorted(kinds)
         ctx.ob(rule + tag, b.key, "hint-arms", ok, where_call(b, i), detail)
+
+
+def filter_siblings(ctx, crate, crs, tag, rule="filter-siblings"):
+    table = [(CACHE + "get_or_cache_matching_candidates", False, "version_set_candidates"),
+             (CACHE + "get_or_cache_non_matching_candidates", True, "version_set_inverse_candidates")]
+    for fn, inverse, field in table:
+        b = body_by_key(crate, fn, coroutine=True)
+        if b is None:
+            ctx.ob(rule + tag, fn, "anchor", False, "", "async body not found")
+            continue
+        sites = b.calls_to(lambda f: provider_call(f, "filter_candidates"))
+        ctx.floor(rule + tag, "filter_candidates call in %s" % fn.split("::")[-1], len(sites), 1)
+        for i, t in sites:
+            inv = t["args"][3]
+            ctx.ob(rule + tag, b.key, "inverse-flag", inv.get("k") == "const" and inv.get("v") is inverse,
+                   where_call(b, i), "inverse = %s feeds %s" % (inv.get("v"), field))
+            # result flows into the insert on `field`
+            ins = q.calls_on_field(b, INSERTS, CACHE_ADT, field)
+            flows = False
+            for ii, it in ins:
+                d, chain = q.origin_thru(b, it["args"][2], transparent=q.TRANSPARENT | {
+                    "std::iter::Iterator::collect", "std::iter::IntoIterator::into_iter"})
+                fut, _ = _await_source(b, d)
+                if fut is not None and fut == i:
+                    flows = True
+            ctx.ob(rule + tag, b.key, "result-stored-in:%s" % field, flows, where_call(b, i),
+                   "the provider's answer itself is what is stored in %s" % field)
+            # version set passed = function's version set = lookup key
+            lk = None
+            for li, lt in q.calls_on_field(b, LOOKUPS, CACHE_ADT, field):
+                lk = key_desc(b, lt["args"][1])
+            same_vs = lk is not None and q.same_origin(lk, key_desc(b, t["args"][2]))
+            ctx.ob(rule + tag, b.key, "same-version-set", same_vs, where_call(b, i),
+                   "filter is asked about the queried version set")
+            # candidate list = .candidates of get_or_cache_candidates(version_set_name(version_set))
+            d, chain = q.origin_thru(b, t["args"][1])
+            full = q.mentions_field(d, CAND_ADT, "candidates")
+            src, _ = _await_source(b, d)
+            pkg_ok = False
+            if src is not None:
+                st = b.blocks[src]["term"]
+                if st.get("f") and CACHE + "get_or_cache_candidates" in callee_keys(st["f"]):
+                    nd, _ = q.origin_thru(b, st["args"][1])
+                    if nd["k"] == "call" and nd["t"]["f"]["name"] == "version_set_name" and \
+                            lk is not None and q.same_origin(lk, key_desc(b, nd["t"]["args"][1])):
+                        pkg_ok = True
+            ctx.ob(rule + tag, b.key, "filters-full-package-list", full and pkg_ok, where_call(b, i),
+                   "filter input is Candidates.candidates of the version set's own package")
+
+
+
+
+def _await_source(b, d):
+    """If the descriptor bottoms out in the Ready payload of an `.await`, return the block of the call that
+    created the awaited future."""
+    if d["k"] == "call" and d["t"].get("f") and "futures::Future::poll" in callee_keys(d["t"]["f"]):
+        # poll(Pin::new_unchecked(&mut fut), cx): fut <- into_future(call)
+        fd, chain = q.origin_thru(b, d["t"]["args"][0], transparent=q.TRANSPARENT | {"std::pin::Pin::new_unchecked"})
+        if fd["k"] == "call":
+            return fd["bb"], fd
+    return None, None
+
+
